@@ -17,7 +17,7 @@ READONLY_THROUGH_MUT = {'IterMut::next', 'Iterator::next'}
 
 
 def user_bodies(facts):
-    return [b for b in facts.bodies.values() if not b.exp and '_serde' not in b.path]
+    return [b for b in facts.bodies.values() if not b.exp and '_serde' not in b.path and '::promoted[' not in b.path]
 
 
 def adt_of_type(ty):
